@@ -1011,7 +1011,10 @@ impl DVec3 {
     pub fn rotate_towards(self, rhs: Self, max_angle: f64) -> Self {
         let angle_between = self.angle_between(rhs);
         // When `max_angle < 0`, rotate no further than `PI` radians away
-        let angle = max_angle.clamp(angle_between - core::f64::consts::PI, angle_between);
+        // not `clamp`, which panics when `angle_between` is NaN (zero length or non-finite input)
+        let angle = max_angle
+            .max(angle_between - core::f64::consts::PI)
+            .min(angle_between);
         let axis = self
             .cross(rhs)
             .try_normalize()
